@@ -15,8 +15,14 @@ use_repo()
 from pyphysim.simulations.parameters import SimulationParameters   # noqa: E402
 from pyphysim.simulations.results import Result, SimulationResults, combine_simulation_results  # noqa: E402
 
-TYPES = {"SUM": Result.SUMTYPE, "RATIO": Result.RATIOTYPE, "MISC": Result.MISCTYPE, "CHOICE": Result.CHOICETYPE}
+TYPES = {"SUM": Result.SUMTYPE, "RATIO": Result.RATIOTYPE, "MISC": Result.MISCTYPE, "CHOICE": Result.CHOICETYPE,
+         "CHOICE3": Result.CHOICETYPE}           # a second choice result with another number of choices (sets may hold both)
 CHOICE_NUM = 4
+CHOICE_NUMS = {"CHOICE": 4, "CHOICE3": 3}
+
+
+def is_choice(t):
+    return t in CHOICE_NUMS
 
 
 def warm_up():
@@ -35,18 +41,18 @@ def gen_obs(rng, tname, mode):
         return [rng.uniform(0, 1e3), rng.uniform(0.5, 1e4)]
     if tname == "MISC":
         return [rng.choice(["a", "b", 3, 4.5, "z%d" % rng.randint(0, 99)]), None]
-    return [rng.randrange(CHOICE_NUM), None]
+    return [rng.randrange(CHOICE_NUMS[tname]), None]
 
 
 def make_result(tname, accumulate, first=None, via_create=False):
     code = TYPES[tname]
     if first is not None and via_create:
-        if tname == "CHOICE":
-            return Result.create("r", code, first[0], CHOICE_NUM, accumulate_values=accumulate)
+        if is_choice(tname):
+            return Result.create("r", code, first[0], CHOICE_NUMS[tname], accumulate_values=accumulate)
         if tname == "RATIO":
             return Result.create("r", code, first[0], first[1], accumulate_values=accumulate)
         return Result.create("r", code, first[0], accumulate_values=accumulate)
-    r = Result("r", code, accumulate_values=accumulate, choice_num=CHOICE_NUM if tname == "CHOICE" else None)
+    r = Result("r", code, accumulate_values=accumulate, choice_num=CHOICE_NUMS[tname] if is_choice(tname) else None)
     if first is not None:
         do_update(r, tname, first)
     return r
@@ -62,13 +68,13 @@ def do_update(r, tname, obs):
 def stats_of(r, tname):
     """Public observations of a result object."""
     n = r.num_updates
-    if tname == "CHOICE":
+    if is_choice(tname):
         val = [int(x) for x in r._value]
     else:
         val = r._value
     out = {"value": val, "total": r._total, "n": n}
     if n > 0 and tname != "MISC":
-        out["result"] = r.get_result().tolist() if tname == "CHOICE" else r.get_result()
+        out["result"] = r.get_result().tolist() if is_choice(tname) else r.get_result()
         out["mean"] = r.get_result_mean()
         out["var"] = r.get_result_var()
     return out
@@ -180,7 +186,7 @@ def gen_plan(rng, tier, idx, opts):
             out["acc_form"] = form
         return out
     if level == "set":
-        names = rng.sample(["SUM", "RATIO", "MISC", "CHOICE"], rng.randint(1, 4))
+        names = rng.sample(["SUM", "RATIO", "MISC", "CHOICE", "CHOICE3"], rng.randint(1, 4))
         ops = []
         nsets = 0
         live = []
@@ -221,7 +227,7 @@ def gen_plan(rng, tier, idx, opts):
                         ops.append({"op": "merge_all", "dst": h, "src": live[j]})
         return {"world": "results", "level": "set", "mode": mode, "names": names, "ops": ops, "accumulate": rng.random() < 0.4}
     # combine
-    names = rng.sample(["SUM", "RATIO", "MISC", "CHOICE"], rng.randint(1, 3))
+    names = rng.sample(["SUM", "RATIO", "MISC", "CHOICE", "CHOICE3"], rng.randint(1, 4))
     nunp = rng.choice([1, 1, 2])
     pnames = ["p", "q"][:nunp]
     grids = []
@@ -389,8 +395,8 @@ def _exec_set(plan, res, log, pid, mode):
                     if nm is None:
                         break
                     o = op["obs"][nm]
-                    if nm == "CHOICE":
-                        s.add_result(Result.create(nm, TYPES[nm], o[0], CHOICE_NUM, accumulate_values=acc_))
+                    if is_choice(nm):
+                        s.add_result(Result.create(nm, TYPES[nm], o[0], CHOICE_NUMS[nm], accumulate_values=acc_))
                     elif acc_:
                         s.add_result(Result.create(nm, TYPES[nm], o[0], o[1] if nm == "RATIO" else 0, accumulate_values=True))
                     elif nm == "RATIO":
@@ -529,7 +535,7 @@ def _exec_combine(plan, res, log, pid, mode):
             union = combine_simulation_results(built[0], built[1])
     except Exception as e:
         add_violation(res, pid + ".op_raises", 0, "combine_simulation_results raised %s: %s" % (type(e).__name__, e),
-                      {"op": "combine", "exc": type(e).__name__, "has_choice": "CHOICE" in names})
+                      {"op": "combine", "exc": type(e).__name__, "has_choice": any(is_choice(n) for n in names)})
         res["nontrivial"] = True
         return
     log.add("combine", plan["sets"])
